@@ -1,5 +1,5 @@
 (** Extraction of the executable model for the correspondence driver. Only [ExtrOcamlBasic]. *)
-From FC Require Import Base.Res Model.Wire Model.Machine Model.Catalogue.
+From FC Require Import Base.Res Model.Wire Model.Machine Model.ICMachine Model.FSMachine Model.Catalogue.
 Require Import Extraction ExtrOcamlBasic.
 
 Definition run_entry (chk : bool) (n : N) (ops : list op) : option (list (list obs)) :=
@@ -8,4 +8,10 @@ Definition run_entry (chk : bool) (n : N) (ops : list op) : option (list (list o
   | None => None
   end.
 
-Extraction "model.ml" run_entry.
+Definition run_fs_entry (chk : bool) (n : N) (ops : list fsop) : option (list uval) :=
+  match fs_entry chk n with
+  | Some F => Some (fs_run0 F ops)
+  | None => None
+  end.
+
+Extraction "model.ml" run_entry run_ic run_fs_entry.
